@@ -206,7 +206,14 @@ func seconds(r *core.Rand) int {
 	return (h*60+r.Intn(60))*60 + r.Intn(60)
 }
 
+// BoundaryDates are rare civil dates at which hand-written date code goes wrong:
+// leap days (also of years divisible by 100 and 400), ends of months and years, epoch edges.
+var BoundaryDates = []Date{{2000, 2, 29}, {2024, 2, 29}, {2096, 2, 29}, {2000, 2, 28}, {2000, 3, 1}, {1970, 1, 1}, {1999, 12, 31}, {2000, 1, 1}, {2038, 1, 19}, {2038, 1, 20}, {2099, 12, 31}, {2023, 2, 28}, {2023, 12, 31}, {1972, 2, 29}}
+
 func date(r *core.Rand) Date {
+	if r.Chance(1, 12) {
+		return core.Pick(r, BoundaryDates)
+	}
 	y := 1970 + r.Intn(130)
 	if r.Chance(2, 3) {
 		y = 2015 + r.Intn(15)
